@@ -270,7 +270,7 @@ def replicaOracleStep (o : ReplicaOr) (toks : List String) : ReplicaOr × String
           else if b.proposer != c.leader b.view then (o, some s!"fail vote-wrong-leader voted for {name} proposed by {b.proposer}, leader of view {b.view} is {c.leader b.view}")
           else if b.parent != b.qc.hash then (o, some s!"fail vote-parent voted for {name} whose parent is not the block its QC certifies")
           else if b.qc.view ≥ b.view then (o, some s!"fail vote-view voted for {name} whose view is not above its QC's view")
-          else if !(b.qc.hash == genesisHash ||
+          else if !((b.qc.hash == genesisHash && b.qc.view == 0) ||
               (match b.qc.sig, blockOf st' b.qc.hash with
                | some sg, some qb => qb.view == b.qc.view && decide (cs.cfg.quorum ≤ (signersFor (fun x => cs.truth.lookup x) cs.cfg sg (blkMsg b.qc.hash)).length)
                | _, _ => false)) then
